@@ -7,14 +7,14 @@ WS = [" ", "  ", "\t", "\n", "　", "  ", " \r\n", "\x1c", " ", "\n    ", "\n
 TERMS = ["a", "foo", "b2", "x*", "?y", "2024-01-01T12:30", "T12:30:45", "xT12:30", "éa", "AND1", "ANDx",
          "\\AND", "a\\ b", "\\:x", "a/b", "a-b", "a+b", "a'b", "a\"b", "<", "a<b", "1", "42", ".", ",",
          "=a", "a=", "*", "T12", "١٢", "x\\\\", "&&", "||", "!", "NOTx", "to", "T٠٠:٠٠",
-         "foo\\ ", "b\\\t", "c\\\u3000"]
+         "foo\\ ", "b\\\t", "c\\\u3000", "20", "30:45", "05"]
 PHRASES = ['"a"', '"a b"', '""', '"a \\" b"', '"l1\nl2"', '"AND"', '"/"', '"\\\\"', '"a:b"', "\"it's\"",
            '"a\rb"', '"a\x0cb"', '"a\u2028b"', '"a\x85b"', '"a\x1cb"']
 REGEXES = ["/a/", "/a b/", "//", "/a\\/b/", '/"/', "/[a-z]+/", "/a\rb/", "/a\u2029b/"]
 NUMS = ["", "1", "2", "0.5", ".5", "2.0", "007", "10", "100", "0.0000001", "1.50", "0", "0.0", "00",
         "1234567890123456789012345678901", "1.0000000000000000000000000001"]
 BADNUMS = [".", "1.2.3", "..", "1.", "1..2"]
-FIELDS = ["f", "title", "a.b", "n.o.h", "f_1", "é", "xT12", "T12", "1", "a\\:b", "*"]
+FIELDS = ["f", "title", "a.b", "n.o.h", "f_1", "é", "xT12", "T12", "1", "a\\:b", "*", "count-10", "utc+01", "10", "k-12"]
 
 
 class QGen:
